@@ -1,0 +1,29 @@
+//go:build verif
+
+// Export shims for the verification harness under /verif (build tag "verif" only), property C17.
+// Add-only: no existing line is changed.
+package serviceentry
+
+import (
+	"istio.io/istio/pilot/pkg/model"
+)
+
+// VerifC17SortServicesByCreationTime exposes the registry-local sortServicesByCreationTime
+// (creation time, Attributes.Name, namespace, K8sAttributes.ObjectName) on bare services.
+func VerifC17SortServicesByCreationTime(services []*model.Service) []*model.Service {
+	in := make([]ServiceWithInstances, 0, len(services))
+	for _, s := range services {
+		in = append(in, ServiceWithInstances{Service: s})
+	}
+	sortServicesByCreationTime(in)
+	out := make([]*model.Service, 0, len(in))
+	for _, s := range in {
+		out = append(out, s.Service)
+	}
+	return out
+}
+
+// VerifC17AutoAllocateIPs exposes autoAllocateIPs (hash-slot allocation in list order).
+func VerifC17AutoAllocateIPs(services []*model.Service) []*model.Service {
+	return autoAllocateIPs(services)
+}
